@@ -29,7 +29,7 @@ def unit(kinds, table, K=None):
     if name not in UNITS:
         th = {}; sfx = 'abc'
         for i, k in enumerate(kinds): th.setdefault('vp_thr_' + k, []).append(sfx[i])
-        UNITS[name] = dict(wrapper='w_grow.cpp', mode='lcs', unroll=(K or (4 if table else 1)), force_unroll=bool(table or K), threads=th, cut=(SPIN_CUT if table else NT_CUT) + (['13internal_growIJEEE'] if 'gtalw' in kinds else []))
+        UNITS[name] = dict(wrapper='w_grow.cpp', mode='lcs', unroll=(K or (4 if table else 1)), force_unroll=bool(table or K), threads=th, cut=(SPIN_CUT if table else NT_CUT) + (['13internal_growIJEEE', 'EE8capacityEv'] if 'gtalw' in kinds else []))
     return name
 def grow(name, kinds, table, rounds, scen, tiers=('quick', 'thorough'), timeout=900, K=None, **kw):
     sfx = 'abc'
@@ -66,8 +66,9 @@ HARNESSES += [
 ] + [grow('pb2_p%d' % p, ('pb', 'pb'), False, 2, [sc2(p, 0, 2, **({'PROBE': 0} if p else {}))], scenarios_thorough=[sc2(p, 0, 2, ROUNDS=3, **({'PROBE': 0} if p else {}))], timeout=1800,
           tiers=(('quick', 'thorough') if p in (0, 2) else ('thorough',))) for p in (0, 1, 2, 3)] + [   # quick keeps the two pb2 queries that catch M1/M6 (p0) and M4/M5 (p2)
   # first block of 2 segments being published by T0 (grow_by(3) on an empty vector) while T1's grow_to_at_least(n<=3) only waits
-  grow('fb_wait', ('gb', 'gtalw'), False, 1, [sc2(0, 0, 4, MIND=3, MAXD=3, GTALN=n, FIRSTA=1) for n in (2, 3)], K=3, native_cflags=['-fno-sanitize=null,pointer-overflow']),
-  grow('fb_extend', ('gb', 'gtal'), False, 2, [sc2(0, 0, 4, MIND=3, MAXD=3, GTALN=4)], tiers=('thorough',), timeout=3600, native_cflags=['-fno-sanitize=null,pointer-overflow']),
+  grow('fb_wait', ('gb', 'gtalw'), False, 2, [sc2(0, 0, 4, MIND=3, MAXD=3, GTALN=3, FIRSTA=1)], scenarios_thorough=[sc2(0, 0, 4, MIND=3, MAXD=3, GTALN=n, FIRSTA=1) for n in (2, 3)],
+       desc='first block of 2 segments being published by thread A (grow_by(3) on an empty vector: CAS of table[0], then the stores to table[1]) while thread B calls grow_to_at_least(n <= 3) and only waits (A claims first; B\'s growth branch and capacity() are cut): at B\'s return every segment below n is published and every element below n constructed or under construction by A', native_cflags=['-fno-sanitize=null,pointer-overflow']),
+  grow('fb_extend', ('gb', 'gtal'), False, 2, [sc2(0, 0, 8, MIND=3, MAXD=4, GTALN=4)], tiers=('thorough',), timeout=3600, native_cflags=['-fno-sanitize=null,pointer-overflow']),
   grow('pb3', ('pb', 'pb', 'pb'), False, 1, [sc2(p, 0, 3, **({'PROBE': 0} if p else {})) for p in (0, 1, 2)], tiers=('thorough',), timeout=3600),
   grow('gb_gb', ('gb', 'gb'), False, 1, [sc2(p, 0, 6, **({'PROBE': 0} if p else {})) for p in (0, 2)], tiers=('thorough',), timeout=3600),
   grow('pb_gb', ('pb', 'gb'), False, 2, [sc2(p, m, 4, **({'PROBE': 0} if p else {})) for p, m in ((0, 0), (1, 0), (3, 0), (3, 1))], tiers=('thorough',), timeout=3600),
@@ -116,6 +117,7 @@ OUTSIDE = [
   'table extension racing with a still-unpublished embedded segment (allocate_long_table waiting for segment 2 while its owner allocates): needs a call spanning indices 5..8 from size 4; the *_lt thread units only run push_back from 7/8 pre-grown elements (mutation M8 in NOTES.md is therefore missed)',
 ]
 STUBS = [
+  'fb_wait: the waiting thread runs the value-less grow_to_at_least(n); its growth branch internal_grow<>() is cut (paths in which it would grow are dropped by assume, thread A claims first) and capacity() is a constant stub (feeds only the index of the returned iterator, not checked for that thread)',
   'fault_* harnesses: allocator stub that throws on the k-th allocation; Elem copy constructor observer that throws on the k-th construction; fresh blocks are poisoned so that never-constructed slots are recognisable; r1::throw_exception throws (contract); atomic_backoff::pause cut to a stub asserting that a single thread never has to wait; exceptions thrown from static objects (so that symex folds the pending-exception flag)',
   'vp_allocator<T>::allocate/deallocate -> vp_alloc_elem/vp_alloc_tab: fresh block of exactly the requested bytes from a static per-thread pool, never fails; deallocate checks pointer/size/double free',
   'spin_wait_while_eq(location, value): returns the content once it differs from value, parks the calling model thread (VP_BLOCK) while equal',
